@@ -24,7 +24,7 @@
 #include "codec_internal.h"
 #include <math.h>
 
-#define MAXF 8192
+#define MAXF (1<<18)
 typedef struct { char *path; unsigned char *data; long len; } xfile;
 static xfile g_f[MAXF]; static int g_nf=0;
 
@@ -45,10 +45,21 @@ static xfile *need_file(int i){
   return &g_f[i];
 }
 
+#if defined(__has_feature)
+#if __has_feature(address_sanitizer)
+#define C03_HAVE_ASAN 1
+void __sanitizer_print_stack_trace(void);
+#endif
+#endif
 static volatile long g_cur_idx=-1;
 static void on_alarm(int s){
   char b[64]; int n=snprintf(b,sizeof(b),"%ld TIMEOUT\n",g_cur_idx);
-  (void)s; if(write(1,b,n)<0){} _exit(3);
+  (void)s;
+#ifdef C03_HAVE_ASAN
+  { static const char m[]="WATCHDOG: stack at expiry\n"; if(write(2,m,sizeof(m)-1)<0){} }
+  __sanitizer_print_stack_trace();   /* where the library was spinning (diagnostic only) */
+#endif
+  if(write(1,b,n)<0){} _exit(3);
 }
 
 typedef struct { char flags[512]; } fl_t;
